@@ -134,10 +134,22 @@ class Summary:
         self.params_out = {}       # value of each parameter variable at function exit (for in-place updates)
 
 
+class PartialV:
+    """functools.partial(f, *args, **kwargs) (only built by domains that set model_partial)"""
+    __slots__ = ("fv", "args", "kwargs", "node")
+
+    def __init__(self, fv, args, kwargs, node):
+        self.fv, self.args, self.kwargs, self.node = fv, list(args), dict(kwargs), node
+
+    def __repr__(self):
+        return "<partial %r>" % (self.fv,)
+
+
 class Interp:
     """Base interpreter.  Subclasses provide the domain."""
 
     name = "base"
+    model_partial = False
 
     def __init__(self, prog):
         self.prog = prog
@@ -291,6 +303,8 @@ class Interp:
             return ("O", v.cls, tuple(sorted((k, self.key(x)) for k, x in v.attrs.items())))
         if isinstance(v, Closure):
             return ("C", id(v.node))
+        if isinstance(v, PartialV):
+            return ("PV", id(v.node))
         if isinstance(v, FuncRef):
             return ("F", v.func.qname)
         if isinstance(v, ExtRef):
@@ -329,7 +343,7 @@ class Interp:
                 else:
                     at[k] = a.attrs.get(k, b.attrs.get(k))
             return ObjV(a.module, a.cls, at, a.tag)
-        if isinstance(a, (FuncRef, ExtRef, ClassRef, Closure)) and self.key(a) == self.key(b):
+        if isinstance(a, (FuncRef, ExtRef, ClassRef, Closure, PartialV)) and self.key(a) == self.key(b):
             return a
         return self.v_join(a, b)
 
@@ -617,7 +631,14 @@ class Interp:
         if isinstance(fv, Closure):
             return self.call_closure(fv, args, kwargs, n, env, ctx)
         if isinstance(fv, ExtRef):
+            if self.model_partial and fv.dotted == "functools.partial" and args and not any(isinstance(a, tuple) and a and a[0] == "*" for a in args[:1]) \
+                    and isinstance(args[0], (ExtRef, FuncRef, Closure, BoundMethod, PartialV)):
+                return PartialV(args[0], args[1:], kwargs, n)
             return self.h_call_ext(fv.dotted, n, args, kwargs, env, ctx)
+        if isinstance(fv, PartialV):
+            kw = dict(fv.kwargs)
+            kw.update(kwargs)
+            return self.apply(fv.fv, list(fv.args) + list(args), kw, n, env, ctx)
         return self.h_call_opaque(fv, n, args, kwargs, env, ctx)
 
     def bind_args(self, func_like, posparams, defaults, vararg, kwarg, args, kwargs, n, ctx, missing):
